@@ -171,8 +171,16 @@ def gen_stmt(ctx, rnd, labels, near, depth=0):
             out.append(apm.insn(rnd.choice(BRANCH), ("br", ("sym", rnd.choice(near)))))
         elif k < 0.95:
             out.append(apm.insn("jsr", ("reg", rnd.choice([5, 7])), general(ctx, rnd, labels)))
-        else:
+        elif rnd.random() < 0.5:
             out.append(apm.insn(rnd.choice(["emt", "trap"]), ("inl", apm.num(rnd.randrange(256)))))
+        else:
+            # an inline field given by a bare constant that may be defined further down
+            nm = ctx.fresh("inl")
+            v = rnd.randrange(64)
+            ctx.consts[nm] = v
+            ctx.const_order.append(nm)
+            ctx.pending_defs.append(apm.assign(nm, apm.num(v, rnd.choice([None, "d"]))))
+            out.append(apm.insn(rnd.choice(["emt", "trap", "mark"]), ("inl", ("sym", nm))))
     elif r < 0.55:
         d = rnd.choice([".word", ".word", ".byte", ".dword"])
         n = rnd.randrange(1, 5) if rnd.random() < 0.93 else 0
